@@ -270,6 +270,7 @@ CAMPAIGNS["add_metadata_command"] = model_campaign(
     quick=[ex(ph(["cli_add_metadata"], False, "r", 80))],
     thorough=[ex(ph(["cli_add_metadata"], True, "r", 1500))])
 
+CAMPAIGNS["draws"] = {"name": "draws", "kind": "draws", "judge": ["BiomDrawTrace.tla", "BiomDrawTrace.cfg"]}
 CAMPAIGNS["recorded_suite"] = {"name": "recorded_suite", "kind": "recorded", "tiers": ["thorough"],
                                "judge": ["BiomRecTrace.tla", "BiomRecTrace.cfg"]}
 
@@ -304,7 +305,12 @@ PROPERTIES = {
     "C09": {"level": "model_checking", "campaigns": [CAMPAIGNS["merge_pairs"]], "assumptions": []},
     "C10": {"level": "model_checking", "campaigns": [CAMPAIGNS["concat_blocks"]], "assumptions": []},
     "C11": {"level": "model_checking", "campaigns": [CAMPAIGNS["partition_collapse"]], "assumptions": []},
-    "C12": {"level": "model_checking", "campaigns": [CAMPAIGNS["subsample_counts"]], "assumptions": []},
+    "C12": {"level": "model_checking", "campaigns": [CAMPAIGNS["subsample_counts"], CAMPAIGNS["draws"]],
+            "spec_checks": [{"module": "MC_Draws.tla", "cfg": "MC_Draws.cfg", "workers": 1, "env": {"DRAW_CFG": "draws_%s.json" % m}}
+                            for m in ("without", "with", "by_id")],
+            "assumptions": ["the distribution clauses compare outcome frequencies over 4000 (quick) / 20000 (thorough) seeds "
+                            "per configuration with the exact weights within 7 standard deviations: a fair implementation "
+                            "fails one with probability < 1e-10; a bias smaller than that band is not seen"]},
     "C05": {
         "level": "model_checking",
         "campaigns": [CAMPAIGNS["coherence_walks"], CAMPAIGNS["recorded_suite"], CAMPAIGNS["reads_full"], CAMPAIGNS["partition_collapse"],
@@ -445,6 +451,9 @@ def run_campaign(camp, tier, seed, wd):
         return run_err_campaign(camp, tier, seed, wd)
     if camp.get("kind") == "recorded":
         return run_recorded_campaign(camp, tier, seed, wd)
+    if camp.get("kind") == "draws":
+        from . import draws
+        return draws.run_draw_campaign(camp, tier, seed, wd)
     rng = random.Random(seed * 1000003 + hash(camp["name"]) % 1000)
     import time
     t0 = time.time()
@@ -501,6 +510,10 @@ def rejudge(stim, wd):
         return {"fails": [x for x in recs if x["k"] == "FAIL"]}
     stim = dict(stim)
     stim.setdefault("id", 1)
+    if stim.get("driver") == "draws":
+        from . import draws
+        jm = stim["judge"]
+        return P.judge([draws.redo(stim, wd)], wd, module=jm[0], cfg=jm[1], njvm=1)
     traces = P.replay([stim], wd, nproc=1, driver=stim.get("driver", "driver"))
     jm = stim.get("judge", ["BiomTrace.tla", "BiomTrace.cfg"])
     return P.judge(traces, wd, module=jm[0], cfg=jm[1], njvm=1)
